@@ -50,9 +50,14 @@ def field_constraints():
     return cs
 
 
+_PINS = {}
+
+
 def ts_object():
     def get(st, name):
         log_call(st, 'ts', name)
+        if name in _PINS:          # a pinned field is handed to the code as the constant it is assumed to be (the path condition carries field == constant)
+            return Int(z3.BitVecVal(_PINS[name], INT_TYPES[FIELDS[name][0]][0]), FIELDS[name][0])
         return Int(fvar(name), FIELDS[name][0])
     def off_handler(ctx, me, args, st):
         m = method_of(ctx.callee)
@@ -115,6 +120,13 @@ def lit(s): return [ord(c) for c in s]
 
 def name_rows(var, names, cut=None):
     return [(fval(var) == i + (1 if var == 'month' else 0), lit(n[:cut] if cut else n)) for i, n in enumerate(names)]
+
+
+def _prune(rows):
+    """drop the rows of a reference whose condition is false under the pinned fields (exact: the pins are assumptions of the run)"""
+    if not _PINS or rows is None: return rows
+    sub = [(fvar(n), z3.BitVecVal(v, fvar(n).size())) for n, v in _PINS.items()]
+    return [(c, chars) for c, chars in rows if not z3.is_false(z3.simplify(z3.substitute(c, *sub)))]
 
 
 def reference(directive, flags, width):
@@ -216,8 +228,8 @@ def reference(directive, flags, width):
         parts = []
         for p in COMPOSITE[directive]:
             if p in '-:/ ' and len(p) == 1: parts.append([(z3.BoolVal(True), lit(p))])
-            elif p == '^b': parts.append(reference('b', ['^'], None))
-            else: parts.append(reference(p, [], None))
+            elif p == '^b': parts.append(_prune(reference('b', ['^'], None)))
+            else: parts.append(_prune(reference(p, [], None)))
         combos = []
         for combo in itertools.product(*parts):
             cond = z3.And(*[c for c, _ in combo]); chars = [x for _, cs_ in combo for x in cs_]
@@ -284,9 +296,10 @@ def expected_from_fields(directive, flags, width, fields):
     return None
 
 
-def ob_directives(chk, P):
+def ob_directives(chk, P, only=None, name='strftime/directives', pins=None):
+    """only: None (all directives, tier-dependent shapes) or [(directive, nflags, wkind, flag characters)] for a targeted run"""
     quick = chk.tier == 'quick'
-    with chk.obligation('strftime/directives', 'every known directive prints the documented value of its field: numeric directives as decimal numbers with the documented default width and padding '
+    with chk.obligation(name, 'every known directive prints the documented value of its field: numeric directives as decimal numbers with the documented default width and padding '
                         '(zero, or space for %e %k %l), `-` removes padding, `_`/`0` choose the padding character, an explicit width overrides the default; names and AM/PM honour ^ and #; '
                         '%L/%N print the leading digits of the 9-digit nanosecond; %z family prints sign, hours, minutes(, seconds); composites equal their expansion; no panic',
                         {'format': "'%' + flags from -_0^# (solver-chosen; quick: 0..1, thorough: 0..2, two flags only without width) + no width | one symbolic digit 1-9 | (thorough, no flags) 1 + a symbolic digit, + each of the known directives",
@@ -294,15 +307,18 @@ def ob_directives(chk, P):
         ex = Executor(P, models_with([])); ex.seed = chk.seed; ex.max_steps = 200000
         ob.stubs += ['time::OffsetDateTime accessors: symbolic values within documented ranges (abstract timestamp)', 'time::Weekday / Month: enums with a symbolic discriminant']
         ob.assumptions += ['field ranges as documented by the time crate; fields are independent symbolic values (over-approximation of real timestamps), violations are confirmed on real timestamps natively']
-        for directive in KNOWN:
-            for nflags, wkind in fmt_shapes(chk.tier):
-                if directive in 'cvr' and quick and (nflags, wkind) != (0, None): continue      # many fields: only the plain form in the quick tier
-                if directive in 'YGygC' and quick and wkind is not None: continue              # 64-bit year arithmetic: explicit widths only in the thorough tier
-                if directive in 'sc' and quick: continue                                       # up to 11-digit timestamps / 7 fields: thorough tier
+        cases = only if only is not None else [(d, nf, wk, FLAGS) for d in KNOWN for nf, wk in fmt_shapes(chk.tier)]
+        for directive, nflags, wkind, flagset in cases:
+            if True:
+                if only is None and directive in 'cvr' and quick and (nflags, wkind) != (0, None): continue      # many fields: only the plain form in the quick tier
+                if only is None and directive in 'YGygC' and quick and wkind is not None: continue              # 64-bit year arithmetic: explicit widths only in the thorough tier
+                if only is None and directive in 'sc' and quick: continue                                       # up to 11-digit timestamps / 7 fields: thorough tier
                 st = State()
                 for c in field_constraints(): st.assume(c)
+                _PINS.clear(); _PINS.update(pins or {})
+                for pn, pv in (pins or {}).items(): st.assume(fval(pn) == pv)
                 fl = [z3.BitVec(f'flag{i}', 32) for i in range(nflags)]
-                for f in fl: st.assume(z3.Or(*[f == ord(x) for x in FLAGS]))
+                for f in fl: st.assume(z3.Or(*[f == ord(x) for x in flagset]))
                 wd = z3.BitVec('wdigit', 32)
                 wchars = []; width = None
                 if wkind == 'digit':
@@ -441,4 +457,8 @@ def run(chk):
     ob_display_subsecond(chk, P)
     ob_unknown_and_errors(chk, P)
     ob_directives(chk, P)
+    if chk.tier == 'quick':
+        # flags and widths on the composite directives (thorough: part of the full sweep with all fields symbolic); numeric fields pinned so that the names and the flag handling are what varies
+        ob_directives(chk, P, only=[(d, nf, wk, '^#0') for d in 'cvr' for nf, wk in ((1, None), (1, 'digit'))] + [('c', 0, None, '^#')], name='strftime/composites-flags',
+                      pins={'year': 2022, 'day': 3, 'hour': 7, 'minute': 56, 'second': 37})
     kani_runner.obligations(chk, C17_SPECS, chk.tier)
